@@ -194,23 +194,12 @@ def run(ctx, replay=None):
                         '(the operators branch on the orientation only, never on coordinates)', 'TLC integers are 32-bit: coordinates below 2^29 are compared directly; the coordinate-linear operators are additionally run on coordinates up to 2^83 (2^53 + 1 and its neighbours included) and compared limb by limb (three signed limbs, base 2^29)']
     # (i) proofs
     t0 = time.time()
-    tmp = tempfile.mkdtemp(prefix='tlaps_')
-    try:
-        for f in ('GVGeometry.tla', 'GVGeometryProofs.tla'):
-            shutil.copy(os.path.join(SPEC, f), tmp)
-        p = subprocess.run(['tlapm', '-I', '/opt/veriftools/tla', 'GVGeometryProofs.tla'], cwd=tmp, capture_output=True, text=True, timeout=1500)
-        out = p.stdout + p.stderr
-    finally:
-        shutil.rmtree(tmp, ignore_errors=True)
-    import re
-    m = re.search(r'All (\d+) obligations? proved', out)
-    if m:
-        ctx.cov['obligations'] = ctx.cov['discharged'] = int(m.group(1))
-    else:
-        m2 = re.search(r'(\d+)/(\d+) obligations failed', out)
-        ctx.cov['obligations'] = int(m2.group(2)) if m2 else 0
-        ctx.cov['discharged'] = (int(m2.group(2)) - int(m2.group(1))) if m2 else 0
-        ctx.violation('TLAPS could not discharge every obligation of GVGeometryProofs (specification-level)', {'kind': 'tlaps', 'tail': out[-3000:]})
+    from harness.tlc import run_tlapm
+    proved, tail = run_tlapm(['GVGeometry.tla', 'GVGeometryProofs.tla'], 'GVGeometryProofs.tla')
+    if proved is None:
+        # the proofs depend on the specification only: a failure is a failure of the machinery, not of the code
+        raise RuntimeError('TLAPS could not discharge every obligation of GVGeometryProofs:\n' + tail)
+    ctx.cov['obligations'] = ctx.cov['discharged'] = proved
     ctx.cov['checker_cmd'] = 'tlapm -I /opt/veriftools/tla GVGeometryProofs.tla'
     ctx.cov['trusted_base'] = ['tlapm 1.6.0-pre with its SMT/Zenon/Isabelle back ends', 'TLC', 'the JSON projection of geometry values']
     ctx.log(f'TLAPS: {ctx.cov.get("discharged")}/{ctx.cov.get("obligations")} obligations in {time.time() - t0:.0f}s')
